@@ -1085,3 +1085,254 @@ func TestVerifC09(t *testing.T) {
 		"NUMA annotation; pod metrics incl. dangling and duplicate keys; host applications; fresh/stale/missing update time; NRT absent or 0-4 zones) " +
 		"followed by the same scenario with one consumption input raised; non-trivial = not degraded, >=1 active HP pod and a positive published amount; distinct by op lines")
 }
+
+// ---------- batch plugin glue: Calculate -> NewNodeResource -> Prepare -> NeedSync ----------
+
+func c09ExactDiff(oldV, newV, permille int64) (must, mustNot bool) {
+	d := newV - oldV
+	if d < 0 {
+		d = -d
+	}
+	return d*1000 > oldV*permille, d*1000 < oldV*permille || d == 0
+}
+
+// c09OldNear picks the old node's amount near the new one so that the diff threshold is exercised on both sides.
+func c09OldNear(r *vRand, newV, permille int64) int64 {
+	if newV < 0 {
+		if r.Chance(1, 3) {
+			return -1
+		}
+		return r.Int63n(1000)
+	}
+	switch r.Intn(8) {
+	case 0:
+		return -1
+	case 1:
+		return newV
+	case 2:
+		return 0
+	case 3:
+		return newV * 1000 / (1000 + permille)
+	case 4:
+		if permille < 1000 {
+			return newV * 1000 / (1000 - permille)
+		}
+		return newV + 1
+	case 5:
+		return c09P0(newV*1000/(1000+permille) + int64(r.Range(-1, 1)))
+	default:
+		d := newV * permille / 1000
+		return c09P0(newV + r.Int63n(2*d+3) - d - 1)
+	}
+}
+
+func TestVerifC09Prepare(t *testing.T) {
+	h := vOpen("C09")
+	if h == nil {
+		t.Skip("VERIF_OUT not set")
+	}
+	n := h.N(2000, 40000)
+	for idx := 0; idx < n; idx++ {
+		r := h.Begin(idx)
+		if r == nil {
+			continue
+		}
+		s := c09Gen(r)
+		s.nrt = 0 // zone amounts are covered by TestVerifC09; Prepare handles node-level amounts only
+		s.zones = nil
+		if r.Chance(1, 2) {
+			s.hasUpd, s.upd = true, c09Now-r.Int63n(s.degradeMin*60)
+		}
+		// the glue inputs
+		ratio := int64(-1) // cpu-normalization ratio annotation on the NodeResource, in percent
+		ratioStr := ""
+		switch r.Intn(8) {
+		case 0:
+			ratio, ratioStr = 100, "1.00"
+		case 1:
+			ratio = int64(r.Range(101, 300))
+			ratioStr = fmt.Sprintf("%d.%02d", ratio/100, ratio%100)
+		case 2:
+			ratio = int64(r.Range(1, 99))
+			ratioStr = fmt.Sprintf("0.%02d", ratio)
+		case 3:
+			ratio, ratioStr = -1, "abc" // unparsable: ignored
+		}
+		annoNil := s.annoKind == 0 && r.Chance(1, 3)
+		tpKind := 0
+		tc, tm := int64(-1), int64(-1)
+		if !annoNil {
+			tpKind = []int{0, 0, 1, 2, 2, 2}[r.Intn(6)]
+		}
+		c09Emit(h, s) // ends with `calc`
+		st, node, pl, rm, _ := c09Build(s)
+		if node.Annotations == nil && !annoNil {
+			node.Annotations = map[string]string{}
+		}
+		oldClient, oldClock := client, Clock
+		client = fake.NewClientBuilder().WithScheme(c09Scheme).Build()
+		Clock = fakeclock.NewFakeClock(time.Unix(c09Now, 0))
+		var items []framework.ResourceItem
+		var err error
+		p := &Plugin{}
+		panicked := h.Guard(func() { items, err = p.Calculate(st, node, pl, rm) })
+		client, Clock = oldClient, oldClock
+		if panicked || err != nil {
+			h.Obs("panic-or-error")
+			h.End()
+			continue
+		}
+		res := c09Res{}
+		deg := len(items) == 2 && items[0].Reset && items[1].Reset
+		if deg {
+			res.kind = 1
+		} else {
+			res.cpu, res.mem = items[0].Quantity.Value(), items[1].Quantity.Value()
+		}
+		c09Obs(h, &res)
+		if tpKind == 2 {
+			hi := []int64{res.cpu, res.mem}
+			tc, tm = c09Amount(r, hi[0]+hi[0]/4+5), c09Amount(r, hi[1]+hi[1]/4+5)
+			tpa := slov1alpha1.ThirdPartyAllocations{}
+			// two batch entries are summed, a prod entry is ignored
+			c1, m1 := tc/2, tm/2
+			rl := func(c, m int64) corev1.ResourceList {
+				l := corev1.ResourceList{}
+				if c >= 0 {
+					l[extension.BatchCPU] = *resource.NewQuantity(c, resource.DecimalSI)
+				}
+				if m >= 0 {
+					l[extension.BatchMemory] = *resource.NewQuantity(m, resource.BinarySI)
+				}
+				return l
+			}
+			if tc < 0 {
+				c1 = -1
+			}
+			if tm < 0 {
+				m1 = -1
+			}
+			tpa.Allocations = append(tpa.Allocations,
+				slov1alpha1.ThirdPartyAllocation{Name: "yarn", Priority: extension.PriorityBatch, Resources: rl(c1, m1)},
+				slov1alpha1.ThirdPartyAllocation{Name: "other", Priority: extension.PriorityProd, Resources: rl(77, 77)},
+				slov1alpha1.ThirdPartyAllocation{Name: "yarn2", Priority: extension.PriorityBatch, Resources: rl(tc-c09P0(c1), tm-c09P0(m1))})
+			b, _ := json.Marshal(tpa)
+			node.Annotations[slov1alpha1.NodeThirdPartyAllocationsAnnotationKey] = string(b)
+		} else if tpKind == 1 {
+			node.Annotations[slov1alpha1.NodeThirdPartyAllocationsAnnotationKey] = "{broken"
+		}
+		nr := framework.NewNodeResource(items...)
+		if ratioStr != "" {
+			nr.Annotations[extension.AnnotationCPUNormalizationRatio] = ratioStr
+		}
+		newNode := node.DeepCopy()
+		if newNode.Status.Allocatable == nil {
+			newNode.Status.Allocatable = corev1.ResourceList{}
+		}
+		if newNode.Status.Capacity == nil {
+			newNode.Status.Capacity = corev1.ResourceList{}
+		}
+		newNode.Status.Allocatable[extension.BatchCPU] = *resource.NewQuantity(7, resource.DecimalSI)
+		newNode.Status.Capacity[extension.BatchMemory] = *resource.NewQuantity(7, resource.BinarySI)
+		h.Op("bprep %d %d %d %d %d", ratio, vB(annoNil), tpKind, tc, tm)
+		pub := [2]int64{-1, -1}
+		if h.Guard(func() { err = p.Prepare(st, newNode, nr) }) {
+			h.Obs("panic")
+			h.End()
+			continue
+		}
+		for d, name := range ResourceNames {
+			a, okA := newNode.Status.Allocatable[name]
+			c, okC := newNode.Status.Capacity[name]
+			if okA != okC || (okA && a.Cmp(c) != 0) {
+				h.Fail("C09:batch-capacity-allocatable-differ", "resource %s: allocatable %v(%v) capacity %v(%v)", name, a.Value(), okA, c.Value(), okC)
+			}
+			if okA {
+				pub[d] = a.Value()
+			}
+		}
+		h.Obs("bpub %d %d", pub[0], pub[1])
+		if origin, e := slov1alpha1.GetOriginExtendedAllocatable(newNode.Annotations); e != nil || origin == nil {
+			h.Obs("origin none")
+		} else {
+			oc, om := origin.Resources[extension.BatchCPU], origin.Resources[extension.BatchMemory]
+			h.Obs("origin %d %d", oc.Value(), om.Value())
+		}
+		// oracle: stale => withdrawn; fresh => 0 <= published <= calculated (amplified for cpu), third party only lowers
+		if c09Stale(s) {
+			if pub[0] != -1 || pub[1] != -1 {
+				h.Fail("C09:stale-published", "node metric stale/missing but the node still carries batch (%d,%d)", pub[0], pub[1])
+			}
+		} else {
+			amp := res.cpu
+			if ratio > 100 {
+				amp = int64(math.Ceil(float64(res.cpu) * float64(ratio) / 100))
+			}
+			if pub[0] < 0 || pub[1] < 0 {
+				h.Fail("C09:fresh-not-published", "fresh metrics, calculated (%d,%d) but the node carries (%d,%d)", res.cpu, res.mem, pub[0], pub[1])
+			}
+			if pub[0] > amp || pub[1] > res.mem {
+				h.Fail("C09:prepare-raises", "Prepare put (%d,%d) on the node, above the calculated (%d,%d) ratio %d%%", pub[0], pub[1], res.cpu, res.mem, ratio)
+			}
+			if tpKind != 2 && (pub[0] < res.cpu || pub[1] != res.mem) {
+				h.Fail("C09:prepare-lowers", "no third-party allocation but Prepare put (%d,%d), calculated (%d,%d)", pub[0], pub[1], res.cpu, res.mem)
+			}
+			if pub[0] > 0 || pub[1] > 0 {
+				h.Nontrivial()
+			}
+		}
+		// NeedSync against an old node
+		permille := []int64{100, 100, 50, 200, 1, 1000, 290, 333}[r.Intn(8)]
+		thr := float64(permille) / 1000
+		st.ResourceDiffThreshold = &thr
+		old := [2]int64{c09OldNear(r, pub[0], permille), c09OldNear(r, pub[1], permille)}
+		oldNode := node.DeepCopy()
+		if oldNode.Status.Allocatable == nil {
+			oldNode.Status.Allocatable = corev1.ResourceList{}
+		}
+		if old[0] >= 0 {
+			oldNode.Status.Allocatable[extension.BatchCPU] = *resource.NewQuantity(old[0], resource.DecimalSI)
+		}
+		if old[1] >= 0 {
+			oldNode.Status.Allocatable[extension.BatchMemory] = *resource.NewQuantity(old[1], resource.BinarySI)
+		}
+		h.Op("bsync %d %d %d", old[0], old[1], permille)
+		var synced bool
+		if h.Guard(func() { synced, _ = p.NeedSync(st, oldNode, newNode) }) {
+			h.Obs("panic")
+			h.End()
+			continue
+		}
+		h.Obs("bsync %d", vB(synced))
+		must, mustNot := false, true
+		for d := 0; d < 2; d++ {
+			switch {
+			case (old[d] < 0) != (pub[d] < 0):
+				must, mustNot = true, false
+			case old[d] < 0:
+			default:
+				m, mn := c09ExactDiff(old[d], pub[d], permille)
+				f := math.Abs(float64(pub[d]*1000-old[d]*1000)) > float64(old[d]*1000)*(float64(permille)/1000)
+				if (m && !f) || (mn && f) {
+					h.Fail("C09:float-assumption", "IsQuantityDiff(%d,%d,%d/1000): float %v contradicts the exact comparison", old[d], pub[d], permille, f)
+				}
+				must = must || m
+				mustNot = mustNot && mn
+			}
+		}
+		if must && !synced {
+			h.Fail("C09:batch-sync-missed", "old (%d,%d) new (%d,%d) differ by more than %d/1000 but NeedSync=false", old[0], old[1], pub[0], pub[1], permille)
+		}
+		if mustNot && synced {
+			h.Fail("C09:batch-sync-spurious", "old (%d,%d) new (%d,%d) within %d/1000 but NeedSync=true", old[0], old[1], pub[0], pub[1], permille)
+		}
+		h.Tag(fmt.Sprintf("prep:deg=%v", deg))
+		h.Tag(fmt.Sprintf("prep:tp=%d", tpKind))
+		h.Tag(fmt.Sprintf("prep:ratio>100=%v", ratio > 100))
+		h.Tag(fmt.Sprintf("prep:sync=%v", synced))
+		h.End()
+	}
+	h.Close("batch plugin glue: the scenarios of the batch stream (no NRT) -> Calculate -> NewNodeResource (+ cpu-normalization ratio annotation: absent, 1.00, >1, <1, " +
+		"unparsable) -> Prepare on a node with nil / empty annotations, third-party allocations absent / unparsable / two batch entries + one prod entry (missing keys) -> " +
+		"NeedSync against an old amount on/around the diff boundary; non-trivial = fresh metrics and a positive amount on the node; distinct by op lines")
+}
